@@ -161,12 +161,6 @@ theorem keepFrom_cons (p : Nat → Bool) (v : Value) (vs : List Value) (k : Nat)
   rw [List.zipIdx_cons, List.filter_cons]
   split <;> simp
 
-theorem applyLoop_eq (mt : Match) (vs : List Value) (k : Nat) :
-    applyLoop mt vs k = keepFrom mt.test vs k := by
-  induction vs generalizing k with
-  | nil => simp [applyLoop, keepFrom]
-  | cons v vs ih => rw [applyLoop, keepFrom_cons, ih]
-
 theorem keepFrom_congr (p q : Nat → Bool) (vs : List Value) (k : Nat)
     (h : ∀ i, k ≤ i → i < k + vs.length → p i = q i) : keepFrom p vs k = keepFrom q vs k := by
   induction vs generalizing k with
@@ -204,6 +198,82 @@ theorem keepFrom_ne_nil (p : Nat → Bool) (vs : List Value) (k : Nat)
       simp only [hk]
       exact ih (k + 1) ⟨i, by omega, by simp at h2; omega, h3⟩
 
+theorem keepFrom_append_one (p : Nat → Bool) (l : List Value) (v : Value) (k : Nat) :
+    keepFrom p (l ++ [v]) k = keepFrom p l k ++ (if p (k + l.length) then [v] else []) := by
+  induction l generalizing k with
+  | nil =>
+    rw [List.nil_append, keepFrom_cons]
+    split <;> simp_all [keepFrom]
+  | cons a l ih =>
+    simp only [List.cons_append, keepFrom_cons, ih (k + 1), List.length_cons]
+    have e : k + 1 + l.length = k + (l.length + 1) := by omega
+    rw [e]
+    split <;> simp
+
+theorem applyInPlace_inv (mt : Match) (orig : List Value) :
+    ∀ (fuel i j : Nat) (arr : List Value), arr.length = orig.length → j ≤ i → i + fuel = orig.length →
+      arr.drop i = orig.drop i → arr.take j = keepFrom mt.test (orig.take i) 0 →
+      (applyInPlace mt fuel i j arr).1.take (applyInPlace mt fuel i j arr).2 = keepFrom mt.test orig 0 := by
+  intro fuel
+  induction fuel with
+  | zero =>
+    intro i j arr _ _ hi _ hk
+    have : i = orig.length := by omega
+    subst this
+    simpa [applyInPlace] using hk
+  | succ fuel ih =>
+    intro i j arr hlen hji hi hdrop hk
+    have hilt : i < orig.length := by omega
+    have hget : arr[i]? = some orig[i] := by
+      have h1 : (arr.drop i)[0]? = (orig.drop i)[0]? := by rw [hdrop]
+      simpa [List.getElem?_drop, hilt] using h1
+    have htake : orig.take (i + 1) = orig.take i ++ [orig[i]] := by
+      rw [List.take_add_one]; simp [hilt]
+    unfold applyInPlace
+    rw [hget]
+    simp only
+    split
+    · rename_i ht
+      apply ih (i + 1) (j + 1) (arr.set j orig[i]) (by simpa using hlen) (by omega) (by omega)
+      · rw [List.drop_set_of_lt (by omega)]
+        have := congrArg (List.drop 1) hdrop
+        simpa [List.drop_drop, Nat.add_comm] using this
+      · rw [htake, keepFrom_append_one, ← hk]
+        have hl : (orig.take i).length = i := by simp; omega
+        simp only [hl, Nat.zero_add, ht, if_true]
+        have hj : j < arr.length := by omega
+        rw [List.take_add_one, List.take_set_of_le (Nat.le_refl _)]
+        simp [hj]
+    · rename_i ht
+      apply ih (i + 1) j arr hlen (by omega) (by omega)
+      · have := congrArg (List.drop 1) hdrop
+        simpa [List.drop_drop, Nat.add_comm] using this
+      · rw [htake, keepFrom_append_one, ← hk]
+        have hl : (orig.take i).length = i := by simp; omega
+        simp [hl, ht]
+
+theorem applyInPlace_eq (mt : Match) (vals : List Value) :
+    (applyInPlace mt vals.length 0 0 vals).1.take (applyInPlace mt vals.length 0 0 vals).2
+      = keepFrom mt.test vals 0 :=
+  applyInPlace_inv mt vals vals.length 0 0 vals rfl (Nat.le_refl _) (by simp) rfl (by simp [keepFrom])
+
+theorem applyInPlace_bounds (mt : Match) (L : Nat) :
+    ∀ (fuel i j : Nat) (arr : List Value), arr.length = L → j ≤ i → i + fuel = L →
+      (applyInPlace mt fuel i j arr).2 ≤ (applyInPlace mt fuel i j arr).1.length := by
+  intro fuel
+  induction fuel with
+  | zero => intro i j arr hl hji hi; simp [applyInPlace]; omega
+  | succ fuel ih =>
+    intro i j arr hl hji hi
+    unfold applyInPlace
+    cases hg : arr[i]? with
+    | none => simp; omega
+    | some val =>
+      simp only
+      split
+      · exact ih (i + 1) (j + 1) _ (by simpa using hl) (by omega) (by omega)
+      · exact ih (i + 1) j arr hl (by omega) (by omega)
+
 /-- `Apply` leaves exactly the measurements whose `Test` is true, in order (every n). -/
 theorem apply_values (mt : Match) (hwf : MatchWF mt) (vals : List Value) (hlen : vals.length = mt.n) :
     (mt.apply vals).1 = keepIdx mt.test vals := by
@@ -214,7 +284,7 @@ theorem apply_values (mt : Match) (hwf : MatchWF mt) (vals : List Value) (hlen :
     subst this
     split
     · simp [keepFrom]
-    · split <;> simp [keepFrom, applyLoop]
+    · split <;> simp [keepFrom, applyInPlace]
   · have hpos : 0 < mt.n := by omega
     split
     · rename_i ha
@@ -230,7 +300,7 @@ theorem apply_values (mt : Match) (hwf : MatchWF mt) (vals : List Value) (hlen :
         cases h : mt.test i
         · rfl
         · exact absurd ⟨i, by omega, h⟩ hna'
-      · simp [applyLoop_eq]
+      · simp [applyInPlace_eq]
 
 /-- for at least one measurement the returned flag says whether any measurement remains -/
 theorem apply_flag (mt : Match) (_hwf : MatchWF mt) (vals : List Value) (hlen : vals.length = mt.n)
@@ -244,7 +314,16 @@ theorem apply_flag (mt : Match) (_hwf : MatchWF mt) (vals : List Value) (hlen : 
   · split
     · simp
     · simp only
-      cases applyLoop mt vals 0 <;> simp
+      have hb := applyInPlace_bounds mt vals.length vals.length 0 0 vals rfl (Nat.le_refl _) (by simp)
+      generalize applyInPlace mt vals.length 0 0 vals = r at hb
+      obtain ⟨arr, j⟩ := r
+      simp only at hb ⊢
+      cases j with
+      | zero => simp
+      | succ j =>
+        cases arr with
+        | nil => simp at hb
+        | cons a l => simp
 
 /-- … and it equals `Any()` -/
 theorem apply_flag_any (mt : Match) (hwf : MatchWF mt) (vals : List Value) (hlen : vals.length = mt.n)
@@ -261,11 +340,13 @@ theorem apply_flag_any (mt : Match) (hwf : MatchWF mt) (vals : List Value) (hlen
       have hany : mt.any = true := by simpa using hna
       obtain ⟨i, hi, ht⟩ := (any_spec mt hwf hpos).mp hany
       have hne := keepFrom_ne_nil mt.test vals 0 ⟨i, Nat.zero_le _, by omega, ht⟩
-      rw [← applyLoop_eq] at hne
+      rw [← applyInPlace_eq] at hne
       simp only [hany]
-      cases h : applyLoop mt vals 0 with
-      | nil => exact absurd h hne
-      | cons a l => simp
+      generalize applyInPlace mt vals.length 0 0 vals = r at hne
+      obtain ⟨arr, j⟩ := r
+      cases j with
+      | zero => simp at hne
+      | succ j => simp
 
 /-- boundary n = 0: nothing is left and the flag is `All()` -/
 theorem apply_zero' (mt : Match) (vals : List Value) (hlen : vals.length = mt.n) (hn : mt.n = 0) :
@@ -275,7 +356,7 @@ theorem apply_zero' (mt : Match) (vals : List Value) (hlen : vals.length = mt.n)
   unfold Match.apply
   cases ha : mt.all
   · simp only [Bool.false_eq_true, if_false]
-    split <;> simp [applyLoop]
+    split <;> simp [applyInPlace]
   · simp
 
 end C06
